@@ -459,6 +459,13 @@ def Full.step (f : Full) (line : String) : Full :=
   | "eread" => let (w, ew) := onERead (bump f.w) f.ew toks; { f with w := w, ew := ew }
   | "efinal" => let (w, ew) := onEFinal (bump f.w) f.ew toks; { f with w := w, ew := ew }
   | "eclosed" => { f with w := onEClosed (bump f.w) toks }
+  | "doctorn" =>
+    -- C07: a Query that runs while a batch put lands returns one state of the documents: both members
+    -- of the old batch or both of the new one, never one of each, never an error
+    let w := bump f.w
+    let gens := arg toks "gens"
+    { f with w := if arg toks "err" != "false" || (gens.splitOn ",").length != 1 || gens == "-" || arg toks "n" != "2" then
+        w.fail "C07" "atomic" s!"peer {toks.getD 1 ""}: a Query overlapping a batch put of two documents returned {arg toks "n"} of them from generations [{gens}] (error: {arg toks "err"}): not a state the replica ever held" else w }
   | "buscensus" =>
     -- C18: an instance that has been closed listens to nothing on its event bus any more (the bus may be
     -- the caller's own: a subscription nobody reads blocks whoever emits on it once its buffer is full)
